@@ -636,6 +636,9 @@ impl<'a> MemoryMapped<'a> for IntVectorMapper<'a> {
         let slice: &[u64] = map.as_ref();
         let len = slice[offset] as usize;
         let width = slice[offset + 1] as usize;
+        if width == 0 || width > bits::WORD_BITS {
+            return Err(Error::new(ErrorKind::InvalidData, "Integer width must be 1 to 64 bits"));
+        }
         let data = RawVectorMapper::new(map, offset + 2)?;
         Ok(IntVectorMapper {
             len, width, data,
